@@ -33,10 +33,11 @@
 (* budget K: the map seam accepts K calls and fails on call K+1 (an input);  *)
 (* pairs: the <<page, frame>> numbers of ALL calls made to the map seam, in  *)
 (* call order (including the failing one); seamfail: call K+1 happened.     *)
-(* A mapper whose seam fails at call K+1 must have issued exactly the first *)
-(* K+1 consecutive pairs and return that error; success is only allowed     *)
-(* after exactly ceil(size/page) pairs - so huge satisfiable sizes (2^32     *)
-(* pages and more) are checked with a small K.                              *)
+(* The ORDER of the map calls is not part of the statement: success <=> the  *)
+(* issued pairs are exactly {(start+i, frame+i) : i < ceil(size/page)}, each *)
+(* once; a mapper whose seam fails at call K+1 must have issued K+1 distinct *)
+(* members of that set and return that error - so huge satisfiable sizes     *)
+(* (2^32 pages and more) are checked with a small K.                         *)
 (***************************************************************************)
 EXTENDS Integers, Sequences, FiniteSets
 CONSTANTS LimbBits, NLimbs, PB, Props
@@ -72,9 +73,19 @@ MonReserve(s, e) ==
           <<"C07", e.res = "panic", <<"EarlyReserveRegion panicked", e.size>> >>,
           <<"C07", e.res # "panic" /\ e.cur # s.cur, <<"failed reservation changed the reservation cursor", s.cur, e.cur>> >> >>]
 
-\* the recorded map-seam calls are consecutive (page, frame) pairs starting at (p0, f0)
-Consecutive(e, p0, f0) == \A i \in 1..Len(e.pairs) : e.pairs[i] = <<Nth(p0, i), Nth(f0, i)>>
-\* outcome checks shared by both region mappers; p0/f0: where the pairs have to start
+\* The statement fixes WHICH pages are mapped to WHICH frames, not the order of the map calls.
+\* Expected set for a region of n pages starting at page p0 / frame f0: {(p0 + i, f0 + i) : i < n}.
+\* Membership of a pair without enumerating the (possibly 2^32 and more) members:
+Off(pr, f0) == W!Sub(pr[2], f0)                                    \* which member it would be
+Member(pr, p0, f0, n) == W!Lt(Off(pr, f0), n) /\ pr[1] = W!Add(p0, Off(pr, f0))
+AllMembers(e, p0, f0, n) == \A i \in 1..Len(e.pairs) : Member(e.pairs[i], p0, f0, n)
+Distinct(e) == Cardinality({e.pairs[i] : i \in 1..Len(e.pairs)}) = Len(e.pairs)
+\* where a region containing pair pr (as some member) starts
+StartOf(pr, f0) == W!Sub(pr[1], Off(pr, f0))
+
+\* outcome checks shared by both region mappers; p0/f0: where the region starts.
+\*  success           <=> the issued pairs are exactly the expected set, each once (count = n, distinct, all members)
+\*  seam fails at K+1 (only legal when more than K pages are needed): exactly K+1 distinct members, the seam's error returned
 MapperChecks(e, need, p0, f0, what) == <<
   <<"C07", e.res = "panic", <<what, "panicked", e.size>> >>,
   <<"C07", e.res = "ok" /\ need.ovf,
@@ -87,15 +98,17 @@ MapperChecks(e, need, p0, f0, what) == <<
   <<"C07", e.seamfail /\ Len(e.pairs) # e.budget + 1, <<what, "map calls after the seam failed", Len(e.pairs), "budget", e.budget>> >>,
   <<"C07", e.seamfail /\ (need.ovf \/ ~W!Lt(W!FromNat(e.budget), need.n)),
            <<what, "issued more map calls than pages needed", Len(e.pairs), "needed", need.n>> >>,
-  <<"C07", e.res \in {"ok", "seamerr"} /\ ~Consecutive(e, p0, f0),
-           <<what, "map calls are not consecutive pages to consecutive frames starting at the region start">> >>,
+  <<"C07", e.res \in {"ok", "seamerr"} /\ ~need.ovf /\ ~AllMembers(e, p0, f0, need.n),
+           <<what, "a map call is not one of the pairs (start page + i, start frame + i), i < pages needed; region start", p0, "pages", need.n>> >>,
+  <<"C07", e.res \in {"ok", "seamerr"} /\ ~Distinct(e), <<what, "the same (page, frame) pair was mapped twice">> >>,
   <<"C07", e.res = "err" /\ Len(e.pairs) # 0, <<what, "failed without a seam failure but mapped pages", Len(e.pairs)>> >> >>
 
-\* MapRegion: on success the region start is returned; when the seam fails no page is returned and the first
-\* map call tells where the reservation was made (it must be a legal placement too).  After a seam failure the
-\* statement does not say whether the reservation is kept, so `low` is left alone (lenient both ways).
+\* MapRegion: on success the region start is returned; when the seam fails no page is returned and the region start
+\* is derived from the first recorded call (pair (p, f) is member f - f0, so the region starts at p - (f - f0)); every
+\* other call must then be a member of the same region, and that start must be a legal placement too.  After a seam
+\* failure the statement does not say whether the reservation is kept, so `low` is left alone (lenient both ways).
 MonMapRegion(s, e) ==
-  LET p0 == IF e.res = "ok" \/ Len(e.pairs) = 0 THEN e.page ELSE e.pairs[1][1]
+  LET p0 == IF e.res = "ok" \/ Len(e.pairs) = 0 THEN e.page ELSE StartOf(e.pairs[1], e.f)
       a  == W!ShiftL(p0, PB)
       placed == e.res = "ok" \/ (e.res = "seamerr" /\ Len(e.pairs) > 0)
   IN [s |-> [low |-> IF e.res = "ok" THEN a ELSE s.low, cur |-> e.cur],
